@@ -68,7 +68,7 @@ VEC_CHK = "fun c => match c with (o, tag, e) => Z.eqb (gout_tag o) tag && corr_v
 
 def cv_case(spec, obs, ncv, prices):
     tag = 1 if obs["fallthrough"] else 0
-    return (f"(vrun_tab 1 {natlit(ncv)} {lst([qlit(p) for p in prices])} {tables(spec, obs)}, {natlit(ncv)}, {zlit(tag)}, "
+    return (f"(vrun_tab {natlit(spec.get('dim', 1))} {natlit(ncv)} {lst([qlit(p) for p in prices])} {tables(spec, obs)}, {natlit(ncv)}, {zlit(tag)}, "
             f"{expected_vrows(obs, ncv)}, {expected_cv(obs)})")
 
 
